@@ -357,7 +357,8 @@ fn inject(rng: &mut Rng, spec: &CmdSpec, intent: &LevelIntent, f: Fault) -> Opti
                         return None;
                     }
                     let mut argv = r.argv;
-                    argv.push(format!("--{}=v", a.long.as_ref().unwrap()).into());
+                    // (an empty attached value is a value too)
+                    argv.push(format!("--{}={}", a.long.as_ref().unwrap(), if rng.coin() { "v" } else { "" }).into());
                     return Some((argv, vec![K::TooManyValues]));
                 }
             }
